@@ -325,3 +325,178 @@ def cv_queue_groups(tags=None, tier="quick"):
                             timeout=1800, unwind=12, defines=d, object_bits=10, tags=tags, min_obligations=100,
                             functions=["nsync_cv_broadcast", "nsync_cv_signal", "wake_waiters"]))
     return gs
+
+
+# ---------------------------------------------------------------- debug.c, word-level clause (extraction: dfcc cannot instrument variadic calls)
+import os as _os
+from vp.runner import WORK as _WORK, REPO as _REPO, VERIF as _VERIF
+from vp.extract import extract_functions as _extract_functions, ExtractError
+
+DEBUG_WORD_FNS = ["emit_init", "emit_mu_state", "emit_cv_state", "nsync_mu_debug_state", "nsync_cv_debug_state",
+                  "nsync_mu_debug_state_and_waiters", "nsync_cv_debug_state_and_waiters"]
+
+
+def make_debug_word_tu():
+    """Mechanical extraction, on every run, of the functions of internal/debug.c that touch the mutex / cv word.  What it drops:
+    the printing layer (emit_print, emit_word, emit_waiters, emit_c): every call to it is replaced, by macro, by a non-variadic stub
+    that may write the buffer descriptor - CBMC's contract instrumentation cannot pass through variadic calls.  The buffer clause of C16
+    is proved on the unextracted file (harness/debug/debug_buf.c)."""
+    d = _os.path.join(_WORK, "debug")
+    _os.makedirs(d, exist_ok=True)
+    out = _os.path.join(d, "debug_word_extracted.c")
+    src = _os.path.join(_REPO, "internal/debug.c")
+    fns = _extract_functions(src, DEBUG_WORD_FNS)
+    import re
+    txt = open(src).read()
+    m = re.findall(r"struct emit_buf \{.*?\n\};", txt, re.S)
+    if len(m) != 1:
+        raise ExtractError("expected exactly one definition of struct emit_buf in debug.c")
+    with open(out, "w") as f:
+        f.write('/* GENERATED on every run from internal/debug.c by props/shared.py make_debug_word_tu (verbatim function texts). */\n'
+                '#include "c_mu.h"\n' + m[0] + "\n"
+                "static void vp_print_stub (struct emit_buf *b) { if (vp_nondet_bool ()) b->pos = (int) vp_nondet_i32 (); if (vp_nondet_bool ()) b->overflow = 1; }\n"
+                "#define emit_print(b, ...) vp_print_stub (b)\n#define emit_word(b, n, w) vp_print_stub (b)\n"
+                "#define emit_waiters(b, l) vp_print_stub (b)\n#define emit_c(b, c) vp_print_stub (b)\n")
+        for n in DEBUG_WORD_FNS:
+            f.write(fns[n] + "\n\n")
+        f.write(open(_os.path.join(_VERIF, "harness/debug/debug_word_tail.c")).read())
+    return out
+
+
+L_DEBUG_MU = {"emit_mu_state": [{"names": ["mu", "old_word"],
+                                 "invariants": ["vp_g.spin == 1 && vp_g.hold == 0 && vp_g.dead == 0 && vp_g.observer == 1"],
+                                 "assigns": ["vp_g.spin", "vp_g.last_new", "vp_g.dead", "mu->word", "old_word"]}]}
+
+
+def debug_word_groups(tags=None):
+    tu = make_debug_word_tu()
+    S = [tu] + RG + ["repo:internal/common.c"]
+    D = ["VP_ABSTRACT_QUEUE", "VP_RG_MU", "VP_RG_CV"]
+    A = MU_ASSUMED + ["extraction of emit_mu_state / emit_cv_state and the four entry points from debug.c with the printing layer replaced by a stub (see make_debug_word_tu)"]
+    return [Group(name="debug.mu_state_word", srcs=S, entry="h_debug_mu", replace=["nsync_spin_test_and_set_"], loops=L_DEBUG_MU, timeout=600, unwind=40,
+                  defines=D, tags=tags, assumed=A, min_obligations=100, replay="rg",
+                  functions=["emit_mu_state", "nsync_mu_debug_state", "nsync_mu_debug_state_and_waiters"]),
+            Group(name="debug.cv_state_word", srcs=S, entry="h_debug_cv", replace=["nsync_spin_test_and_set_"], timeout=600, unwind=40,
+                  defines=D, tags=tags, assumed=A, min_obligations=100, replay="rg",
+                  functions=["emit_cv_state", "nsync_cv_debug_state", "nsync_cv_debug_state_and_waiters"])]
+
+
+# ---------------------------------------------------------------- debug.c, buffer clause
+def debug_format_strings():
+    """Must-fire extraction of every format literal passed to emit_print in debug.c."""
+    import re
+    from vp.extract import strip_comments
+    src = open(_os.path.join(_REPO, "internal/debug.c")).read()
+    calls = re.findall(r"emit_print\s*\(\s*b\s*,", src)
+    fmts = re.findall(r'emit_print\s*\(\s*b\s*,\s*("(?:[^"\\]|\\.)*")', src)
+    if len(fmts) != len(calls) or len(fmts) < 5:
+        raise ExtractError(f"emit_print call sites: {len(calls)}, with a literal format: {len(fmts)} (every call must pass a literal format)")
+    out = []
+    for f in fmts:
+        body = f[1:-1]
+        specs = re.findall(r"%(.)", body)
+        if any(s not in "si" for s in specs):
+            raise ExtractError(f"format {f} uses a conversion other than %s / %i")
+        if f not in [x[0] for x in out]:
+            out.append((f, specs))
+    return out
+
+
+def make_debug_fmt_tu():
+    d = _os.path.join(_WORK, "debug")
+    _os.makedirs(d, exist_ok=True)
+    out = _os.path.join(d, "debug_fmt_generated.c")
+    fmts = debug_format_strings()
+    with open(out, "w") as f:
+        f.write('/* GENERATED on every run by props/shared.py make_debug_fmt_tu: one harness per format literal passed to emit_print in debug.c */\n'
+                '#include "' + _os.path.join(_VERIF, "harness/debug/debug_buf.c") + '"\n'
+                'static char vp_str[8];\n'
+                'static void fmt_setup (int len, int pos, int ovf) {\n'
+                '	int i; char *buf;\n'
+                '	buf = (char *) malloc ((size_t) len); __CPROVER_assume (buf != NULL);\n'
+                '	for (i = 0; i < len; i++) buf[i] = (char) vp_nondet_i32 ();\n'
+                '	if (ovf) { if (len >= 1) buf[len - 1] = 0; if (len >= 2) buf[len - 2] = 46; if (len >= 3) buf[len - 3] = 46; if (len >= 4) buf[len - 4] = 46; }\n'
+                '	eb.start = buf; eb.len = len; eb.pos = pos; eb.overflow = ovf;\n'
+                '	for (i = 0; i < 7; i++) vp_str[i] = (char) vp_nondet_i32 ();\n'
+                '	vp_str[7] = 0;\n'
+                '}\n'
+                '#define FMT_CHECK() do { __CPROVER_assert (VP_EB_INV (&eb), "C16: emit_print preserves the emit_buf invariant (writes only inside the buffer, tail intact once overflowed)"); } while (0)\n')
+        f.write('static const uintptr_t vp_vals[] = { 0, 0xf, 0x10, 0xabc, (uintptr_t) 0x123456789abcdef0ull, ~(uintptr_t) 0 };\n')
+        for k, (lit, specs) in enumerate(fmts):
+            args = "".join(", vp_str" if s == "s" else ", vp_vals[(v_ + %d) %% 6]" % j for j, s in enumerate(specs))
+            f.write(f"void h_fmt_{k} (void) {{ int v_, len_, pos_, ovf_; for (v_ = 0; v_ < {6 if 'i' in specs else 1}; v_++) for (len_ = 0; len_ <= VP_FMT_MAXLEN; len_++) "
+                    f"for (pos_ = 0; pos_ <= len_; pos_++) for (ovf_ = 0; ovf_ <= (pos_ == len_ ? 1 : 0); ovf_++) {{ char *s0; int l0; fmt_setup (len_, pos_, ovf_); s0 = eb.start; l0 = eb.len; "
+                    f"emit_print (&eb, {lit}{args}); FMT_CHECK (); "
+                    f'__CPROVER_assert (eb.start == s0 && eb.len == l0, "C16: emit_print does not redirect the buffer"); }} VP_CANARY (); }}\n')
+    return out, fmts
+
+
+def debug_textual():
+    """Textual obligation: in debug.c the buffer and its descriptor are written only by emit_init and emit_c; every entry point
+    hands (buf, n) unchanged to emit_init; emit_mu_state / emit_cv_state end their output with emit_c (b, 0)."""
+    import re
+    from vp.extract import strip_comments, extract_function
+    src = open(_os.path.join(_REPO, "internal/debug.c")).read()
+    clean = strip_comments(src)
+    res = {"obligations": 0, "discharged": 0, "failed": [], "status": "held", "detail": "", "samples": []}
+    names = re.findall(r"(?m)^(?:static\s+)?(?:[\w\*]+\s+)+\**(\w+)\s*\([^;{]*\)\s*\{", clean)
+    names = [n for n in dict.fromkeys(names) if n not in ("if", "while", "for", "switch")]
+    need = {"emit_init", "emit_c", "emit_print", "emit_word", "emit_waiters", "emit_mu_state", "emit_cv_state", "nsync_mu_debug_state",
+            "nsync_cv_debug_state", "nsync_mu_debug_state_and_waiters", "nsync_cv_debug_state_and_waiters"}
+    if not need <= set(names):
+        return {**res, "status": "infra", "detail": f"debug.c: functions not found: {sorted(need - set(names))}"}
+    def fail(name, what):
+        res["failed"].append({"name": name, "description": "C16: " + what, "file": _os.path.join(_REPO, "internal/debug.c"), "line": "", "confirmed": False})
+    for n in names:
+        try:
+            body = strip_comments(extract_function(src, n)[2])
+        except ExtractError as e:
+            return {**res, "status": "infra", "detail": str(e)}
+        if n in ("emit_init", "emit_c"):
+            continue
+        body = body[body.index("{"):]
+        res["obligations"] += 1
+        bad = re.search(r"(->|\.)\s*(start|pos|len|overflow)\s*(=(?!=)|\+\+|--|[-+*/|&^]=)|(\+\+|--)\s*\w+\s*(->|\.)\s*(pos|len|overflow|start)|->\s*start\s*\[", body)
+        bad2 = re.search(r"\bbuf\s*\[|\*\s*buf\b|memcpy|memset|strcpy|sprintf", body)
+        if bad or bad2:
+            fail(n, f"{n} writes the buffer or its descriptor other than through emit_c ({(bad or bad2).group(0)!r})")
+        else:
+            res["discharged"] += 1
+    for n, inner in (("nsync_mu_debug_state", "emit_mu_state"), ("nsync_cv_debug_state", "emit_cv_state"),
+                     ("nsync_mu_debug_state_and_waiters", "emit_mu_state"), ("nsync_cv_debug_state_and_waiters", "emit_cv_state")):
+        body = strip_comments(extract_function(src, n)[2])
+        res["obligations"] += 1
+        if re.search(inner + r"\s*\(\s*emit_init\s*\(\s*&b\s*,\s*buf\s*,\s*n\s*\)", body):
+            res["discharged"] += 1
+        else:
+            fail(n, f"{n} does not hand (buf, n) unchanged to emit_init")
+    for n in ("emit_mu_state", "emit_cv_state"):
+        body = strip_comments(extract_function(src, n)[2])
+        res["obligations"] += 1
+        if re.search(r"emit_c\s*\(\s*b\s*,\s*0\s*\)\s*;\s*IGNORE_RACES_END\s*\(\s*\)\s*;\s*return\s*\(\s*b->start\s*\)\s*;\s*\}\s*$", body):
+            res["discharged"] += 1
+        else:
+            fail(n, f"{n} does not end its output with emit_c (b, 0) immediately before returning the buffer")
+    res["samples"] = [{"obligation": "emit_waiters", "description": "writes the buffer only through emit_c / emit_print"}]
+    if res["failed"]:
+        res["status"] = "violation"
+    return res
+
+
+def debug_buf_groups(tags=None, tier="quick"):
+    S = ["harness/debug/debug_buf.c"] + RG + ["repo:internal/common.c"]
+    D = ["VP_ABSTRACT_QUEUE", "VP_RG_MU", "VP_RG_CV", "VP_MAXLEN=100000"]
+    gs = [Group(name="debug.emit_c", srcs=S, entry="h_emit_c", enforce="emit_c", timeout=900, unwind=40, defines=D, tags=tags,
+                cbmc_args=["--no-malloc-may-fail"], min_obligations=100),
+          Group(name="debug.lemma_emit_sequence", srcs=S, entry="h_emit_sequence", replace=["emit_c"], extra_instrument=["--apply-loop-contracts"],
+                timeout=900, unwind=40, defines=D, tags=tags, cbmc_args=["--no-malloc-may-fail"], kind="lemma", min_obligations=100,
+                functions=["emit_init"])]
+    tu, fmts = make_debug_fmt_tu()
+    maxlen = 10 if tier == "thorough" else 5
+    for k, (lit, specs) in enumerate(fmts):
+        gs.append(Group(name=f"debug.emit_print.fmt{k}", srcs=[tu] + RG + ["repo:internal/common.c"], entry=f"h_fmt_{k}", no_dfcc=True,
+                        timeout=900, unwind=64, object_bits=12, defines=D + [f"VP_FMT_MAXLEN={maxlen}"], tags=tags, cbmc_args=["--no-malloc-may-fail"], kind="bounded",
+                        bound=f"format literal {lit}: six representative values per %i argument, every 7-character %s string, every buffer length 0..{maxlen}, every position, both overflow states, arbitrary buffer contents; "
+                              "loops of emit_print are bounded by the literal / 16 hex digits / 7-character strings and are unwound with unwinding assertions",
+                        min_obligations=20, functions=["emit_print"]))
+    return gs
